@@ -375,4 +375,357 @@ theorem flatPoll_cases {β : Type} (cL cR : Chan β) (af : Bool) :
       | exact Or.inr ⟨_, _, ⟨rfl, rfl⟩, rfl, rfl⟩
       | exact Or.inr (Or.inl ⟨_, _, ⟨rfl, rfl⟩, rfl, rfl⟩)))
 
+abbrev tagL {α : Type} (x : α) : Bool × α := (true, x)
+abbrev tagR {α : Type} (x : α) : Bool × α := (false, x)
+
+/-- The two shapes a run of the merged stream can be in. -/
+inductive MShape {α : Type} (r : MRun α) : Prop where
+  | live (cL cR : Chan (Bool × α)) (af : Bool)
+      (hst : r.st = MSt.live cL cR af) (hend : r.ended = false)
+      (hL : r.out.filter (·.1 == true) ++ cL.queue = r.accL.map tagL)
+      (hR : r.out.filter (·.1 == false) ++ cR.queue = r.accR.map tagR)
+      (hrl : cL.rxAlive = true) (hrr : cR.rxAlive = true)
+      (hsl : cL.senders = if r.closedL then 0 else 1)
+      (hsr : cR.senders = if r.closedR then 0 else 1)
+  | ended (hst : r.st = none) (hend : r.ended = true)
+      (hL : r.out.filter (·.1 == true) <+: r.accL.map tagL)
+      (hR : r.out.filter (·.1 == false) <+: r.accR.map tagR)
+      (hwhy : (r.closedL = true ∧ r.out.filter (·.1 == true) = r.accL.map tagL) ∨
+              (r.closedR = true ∧ r.out.filter (·.1 == false) = r.accR.map tagR))
+
+theorem mshape_init {α : Type} : MShape (MRun.init : MRun α) :=
+  .live Chan.new Chan.new true rfl rfl (by simp [MRun.init, Chan.new]) (by simp [MRun.init, Chan.new])
+    rfl rfl (by simp [MRun.init, Chan.new]) (by simp [MRun.init, Chan.new])
+
+theorem head_tag {α : Type} {b : Bool} {pre q : List (Bool × α)} {x : Bool × α} {acc : List α}
+    (h : pre ++ x :: q = acc.map (fun y => (b, y))) : x.1 = b := by
+  have : x ∈ acc.map (fun y => (b, y)) := by rw [← h]; simp
+  obtain ⟨y, _, rfl⟩ := List.mem_map.mp this
+  rfl
+
+theorem mshape_step {α : Type} {r : MRun α} (h : MShape r) (op : MOp α) : MShape (r.step op) := by
+  rcases r with ⟨st, accL, accR, cl, cr, out, en, last⟩
+  cases h with
+  | ended hst hend hL hR hwhy =>
+    simp only at hst hend hL hR hwhy
+    subst hst hend
+    cases op with
+    | send left x =>
+      have : MRun.step ⟨none, accL, accR, cl, cr, out, true, last⟩ (.send left x) =
+          ⟨none, accL, accR, cl, cr, out, true, last⟩ := by
+        simp [MRun.step, MSt.chan]
+      rw [this]; exact .ended rfl rfl hL hR hwhy
+    | close left =>
+      cases left <;> cases cl <;> cases cr <;>
+        simp only [MRun.step, MRun.closed, MSt.chan, ↓reduceIte, Bool.false_eq_true] <;>
+        refine .ended rfl rfl hL hR ?_ <;> simp_all
+    | poll =>
+      simp only [MRun.step, poll_none]
+      exact .ended rfl rfl hL hR hwhy
+  | live cL cR af hst hend hL hR hrl hrr hsl hsr =>
+    simp only at hst hend hL hR hsl hsr
+    subst hst hend
+    cases op with
+    | send left x =>
+      cases left with
+      | true =>
+        cases cl with
+        | true => simpa [MRun.step, MRun.closed] using MShape.live cL cR af rfl rfl hL hR hrl hrr hsl hsr
+        | false =>
+          simp only [MRun.step, MRun.closed, ↓reduceIte, Bool.false_eq_true, chan_live, Chan.send, hrl,
+            setChan_live]
+          refine .live _ cR af rfl rfl ?_ hR rfl hrr hsl hsr
+          show _ ++ (cL.queue ++ _) = _
+          rw [← List.append_assoc, hL]; simp
+      | false =>
+        cases cr with
+        | true => simpa [MRun.step, MRun.closed] using MShape.live cL cR af rfl rfl hL hR hrl hrr hsl hsr
+        | false =>
+          simp only [MRun.step, MRun.closed, ↓reduceIte, Bool.false_eq_true, chan_live, Chan.send, hrr,
+            setChan_live]
+          refine .live cL _ af rfl rfl hL ?_ hrl rfl hsl hsr
+          show _ ++ (cR.queue ++ _) = _
+          rw [← List.append_assoc, hR]; simp
+    | close left =>
+      cases left with
+      | true =>
+        cases cl with
+        | true => simpa [MRun.step, MRun.closed] using MShape.live cL cR af rfl rfl hL hR hrl hrr hsl hsr
+        | false =>
+          simp only [MRun.step, MRun.closed, ↓reduceIte, Bool.false_eq_true, chan_live, setChan_live]
+          exact .live cL.dropTx cR af rfl rfl hL hR hrl hrr (by simp [Chan.dropTx, hsl]) hsr
+      | false =>
+        cases cr with
+        | true => simpa [MRun.step, MRun.closed] using MShape.live cL cR af rfl rfl hL hR hrl hrr hsl hsr
+        | false =>
+          simp only [MRun.step, MRun.closed, ↓reduceIte, Bool.false_eq_true, chan_live, setChan_live]
+          exact .live cL cR.dropTx af rfl rfl hL hR hrl hrr hsl (by simp [Chan.dropTx, hsr])
+    | poll =>
+      simp only [MRun.step, poll_live]
+      rcases flatPoll_cases cL cR af with ⟨x, q, hq, hp⟩ | ⟨y, q, hq, hp⟩ | ⟨hq, hs, hp⟩ | ⟨hq, hs, hp⟩ |
+        ⟨hq1, hq2, hs1, hs2, hp⟩
+      · rw [hp]
+        rw [hq] at hL
+        have hx := head_tag hL
+        refine .live { cL with queue := q } cR (!af) rfl rfl ?_ ?_ hrl hrr hsl hsr
+        · simp [List.filter_append, hx, ← hL]
+        · simp [List.filter_append, hx, ← hR]
+      · rw [hp]
+        rw [hq] at hR
+        have hy := head_tag hR
+        refine .live cL { cR with queue := q } (!af) rfl rfl ?_ ?_ hrl hrr hsl hsr
+        · simp [List.filter_append, hy, ← hL]
+        · simp [List.filter_append, hy, ← hR]
+      · rw [hp]
+        rw [hq] at hL
+        simp only [List.append_nil] at hL
+        refine .ended rfl rfl (by rw [hL]; exact List.prefix_refl _) (by simp [← hR]) (Or.inl ⟨?_, hL⟩)
+        cases cl <;> simp_all
+      · rw [hp]
+        rw [hq] at hR
+        simp only [List.append_nil] at hR
+        refine .ended rfl rfl (by simp [← hL]) (by rw [hR]; exact List.prefix_refl _) (Or.inr ⟨?_, hR⟩)
+        cases cr <;> simp_all
+      · rw [hp]
+        exact .live cL cR (!af) rfl rfl hL hR hrl hrr hsl hsr
+
+theorem mshape_run {α : Type} (ops : List (MOp α)) {r : MRun α} (h : MShape r) : MShape (r.run ops) := by
+  induction ops generalizing r with
+  | nil => exact h
+  | cons op ops ih => exact ih (mshape_step h op)
+
+theorem MRun.run_append {α : Type} (r : MRun α) (a b : List (MOp α)) : r.run (a ++ b) = (r.run a).run b := by
+  simp [MRun.run, List.foldl_append]
+
+theorem outOf_eq {α : Type} (b : Bool) (out : List (Bool × α)) :
+    outOf b out = (out.filter (·.1 == b)).map (·.2) := rfl
+
+theorem map_tag_snd {α : Type} (b : Bool) (l : List α) : (l.map (fun x => (b, x))).map (·.2) = l := by
+  simp [List.map_map, Function.comp_def]
+
+theorem snd_comp_tag {α : Type} (b : Bool) : ((fun x : Bool × α => x.snd) ∘ fun x => (b, x)) = id := rfl
+theorem snd_comp_tagL {α : Type} : ((fun x : Bool × α => x.snd) ∘ tagL) = id := rfl
+theorem snd_comp_tagR {α : Type} : ((fun x : Bool × α => x.snd) ∘ tagR) = id := rfl
+
+/-- untagging an interleaving -/
+theorem interleave_tags {α : Type} (out : List (Bool × α)) :
+    Interleave (outOf true out) (outOf false out) (out.map (·.2)) := by
+  induction out with
+  | nil => exact .nil
+  | cons p out ih =>
+    rcases p with ⟨b, x⟩
+    cases b
+    · simpa [outOf] using Interleave.right (x := x) ih
+    · simpa [outOf] using Interleave.left (x := x) ih
+
+theorem Interleave.length {α : Type} {l r o : List α} (h : Interleave l r o) : o.length = l.length + r.length := by
+  induction h with
+  | nil => rfl
+  | left _ ih => simp [ih]; omega
+  | right _ ih => simp [ih]; omega
+
+theorem Interleave.mem_iff {α : Type} {l r o : List α} (h : Interleave l r o) (x : α) :
+    x ∈ o ↔ x ∈ l ∨ x ∈ r := by
+  induction h with
+  | nil => simp
+  | left _ ih => simp [ih, or_assoc]
+  | right _ ih => simp [ih]; grind
+
+theorem prefix_map_snd {α : Type} {b : Bool} {a : List (Bool × α)} {l : List α}
+    (h : a <+: l.map (fun x => (b, x))) : a.map (·.2) <+: l := by
+  obtain ⟨t, ht⟩ := h
+  refine ⟨t.map (·.2), ?_⟩
+  have := congrArg (List.map (·.2)) ht
+  simpa [snd_comp_tag] using this
+
+/-- Everything the shape invariant says, in terms of `outOf` / `acc`. -/
+theorem mshape_facts {α : Type} {r : MRun α} (h : MShape r) :
+    outOf true r.out <+: r.accL ∧ outOf false r.out <+: r.accR ∧
+    (r.ended = true → (r.closedL = true ∧ outOf true r.out = r.accL) ∨
+                       (r.closedR = true ∧ outOf false r.out = r.accR)) ∧
+    (r.ended = false → ∀ left c, r.st.chan left = some c →
+        outOf left r.out ++ c.queue.map (·.2) = r.acc left ∧ c.rxAlive = true ∧
+        c.senders = if r.closed left then 0 else 1) ∧
+    (r.ended = true ↔ r.st = none) := by
+  cases h with
+  | ended hst hend hL hR hwhy =>
+    refine ⟨prefix_map_snd hL, prefix_map_snd hR, fun _ => ?_, fun h => by simp [hend] at h, by simp [hst, hend]⟩
+    rcases hwhy with ⟨h1, h2⟩ | ⟨h1, h2⟩
+    · exact Or.inl ⟨h1, by rw [outOf_eq, h2, map_tag_snd]⟩
+    · exact Or.inr ⟨h1, by rw [outOf_eq, h2, map_tag_snd]⟩
+  | live cL cR af hst hend hL hR hrl hrr hsl hsr =>
+    have eL : outOf true r.out ++ cL.queue.map (·.2) = r.accL := by
+      have := congrArg (List.map (·.2)) hL
+      simpa [snd_comp_tagL, snd_comp_tagR, outOf_eq] using this
+    have eR : outOf false r.out ++ cR.queue.map (·.2) = r.accR := by
+      have := congrArg (List.map (·.2)) hR
+      simpa [snd_comp_tagL, snd_comp_tagR, outOf_eq] using this
+    refine ⟨⟨_, eL⟩, ⟨_, eR⟩, fun h => by simp [hend] at h, fun _ left c hc => ?_, by simp [hst, hend, MSt.live]⟩
+    rw [hst, chan_live] at hc
+    cases left
+    · simp only [Bool.false_eq_true, ↓reduceIte, Option.some.injEq] at hc; subst hc
+      exact ⟨eR, hrr, hsr⟩
+    · simp only [↓reduceIte, Option.some.injEq] at hc; subst hc
+      exact ⟨eL, hrl, hsl⟩
+
+/-! ### polls of a run in live / ended shape -/
+
+theorem step_poll_ended {α : Type} (r : MRun α) (h : r.st = none) :
+    r.step .poll = { r with ended := true, last := some .done } := by
+  simp [MRun.step, h, poll_none]
+
+theorem step_poll_live {α : Type} (r : MRun α) (cL cR : Chan (Bool × α)) (af : Bool)
+    (h : r.st = MSt.live cL cR af) :
+    r.step .poll =
+      match flatPoll cL cR af with
+      | (st', .pending) => { r with st := st', last := some .pending }
+      | (st', .done) => { r with st := st', ended := true, last := some .done }
+      | (st', .item x) => { r with st := st', out := r.out ++ [x], last := some (.item x) } := by
+  simp only [MRun.step, h, poll_live]
+  rfl
+
+/-- membership in the executable outcome set -/
+theorem mem_allowedOutcomes {α : Type} (l r a b : List α) (cl cr : Bool) :
+    (a, b) ∈ allowedOutcomes l r cl cr ↔
+      a <+: l ∧ b <+: r ∧ ((cl = true ∧ a.length = l.length) ∨ (cr = true ∧ b.length = r.length)) := by
+  simp only [allowedOutcomes, List.mem_filter, List.mem_flatMap, List.mem_map, List.mem_range, Prod.mk.injEq,
+    Bool.or_eq_true, Bool.and_eq_true, beq_iff_eq]
+  constructor
+  · rintro ⟨⟨i, hi, j, hj, rfl, rfl⟩, h⟩
+    exact ⟨List.take_prefix _ _, List.take_prefix _ _, h⟩
+  · rintro ⟨ha, hb, h⟩
+    refine ⟨⟨a.length, ?_, b.length, ?_, ?_, ?_⟩, h⟩
+    · have := ha.length_le; omega
+    · have := hb.length_le; omega
+    · exact (List.prefix_iff_eq_take.mp ha).symm
+    · exact (List.prefix_iff_eq_take.mp hb).symm
+
+/-! ## Run loops -/
+
+theorem runAudited_engine {ε ι κ ω : Type} (E : Runner ε ι κ) (tx : Tx ω κ) (env : Nat → ω → ω)
+    (k : Nat) (e : ε) (d : DState) (w : ω) (feed : List ι) :
+    (runAudited E tx env k e d w feed).engine = (runPlain E e feed).1 ∧
+    (runAudited E tx env k e d w feed).shutdown = (runPlain E e feed).2 := by
+  induction feed generalizing k e d w with
+  | nil => simp [runAudited, runPlain]
+  | cons ev rest ih =>
+    simp only [runAudited, runPlain]
+    split
+    · simp
+    · exact ih _ _ _ _
+
+theorem runTicks_ne_nil {ε ι κ : Type} (E : Runner ε ι κ) (e : ε) (feed : List ι) : runTicks E e feed ≠ [] := by
+  cases feed with
+  | nil => simp [runTicks]
+  | cons ev rest => simp only [runTicks]; split <;> simp
+
+theorem runTicks_length_pos {ε ι κ : Type} (E : Runner ε ι κ) (e : ε) (feed : List ι) :
+    0 < (runTicks E e feed).length :=
+  List.length_pos_iff.mpr (runTicks_ne_nil E e feed)
+
+theorem runTicks_getLast {ε ι κ : Type} (E : Runner ε ι κ) (e : ε) (feed : List ι) :
+    (runTicks E e feed).getLast? = some (runPlain E e feed).2 := by
+  induction feed generalizing e with
+  | nil => simp [runTicks, runPlain]
+  | cons ev rest ih =>
+    simp only [runTicks, runPlain]
+    split
+    · simp
+    · have hne := runTicks_ne_nil E (E.proc e ev).1 rest
+      rw [List.getLast?_cons_of_ne_nil hne]  
+      exact ih _
+
+/-- a disabled transmitter leaves the world to the environment -/
+theorem runAudited_disabled {ε ι κ ω : Type} (E : Runner ε ι κ) (tx : Tx ω κ) (env : Nat → ω → ω)
+    (k : Nat) (e : ε) (w : ω) (feed : List ι) :
+    (runAudited E tx env k e .disabled w feed).tx = .disabled ∧
+    (runAudited E tx (fun _ w => w) k e .disabled w feed).world = w := by
+  induction feed generalizing k e w with
+  | nil => simp [runAudited, dsend]
+  | cons ev rest ih =>
+    simp only [runAudited, dsend]
+    split
+    · simp
+    · exact ⟨(ih _ _ _).1, (ih _ _ _).2⟩
+
+theorem dsend_world_alive {κ : Type} (c : Chan κ) (g : List κ) (x : κ) (h : c.rxAlive = true) :
+    dsend worldTx .active (c, g) x = (.active, ({ c with queue := c.queue ++ [x] }, g)) := by
+  simp [dsend, worldTx, Chan.send, h]
+
+theorem dsend_world_dead {κ : Type} (c : Chan κ) (g : List κ) (x : κ) (h : c.rxAlive = false) :
+    dsend worldTx .active (c, g) x = (.disabled, (c.dropTx, g)) := by
+  simp [dsend, worldTx, Chan.send, h]
+
+theorem dsend_off {ω κ : Type} (tx : Tx ω κ) (w : ω) (x : κ) : dsend tx .disabled w x = (.disabled, w) := rfl
+
+/-- after the receiver is gone (and the queue with it): nothing is received any more, and the first send
+turns the transmitter off -/
+theorem runAudited_after_drop {ε ι κ : Type} (E : Runner ε ι κ) (K k : Nat) (hk : K < k) (e : ε) (d : DState)
+    (c : Chan κ) (g : List κ) (feed : List ι) (hrx : c.rxAlive = false) (hq : c.queue = []) :
+    let a := runAudited E worldTx (dropEnv K) k e d (c, g) feed
+    a.tx = .disabled ∧ a.world.2 = g ∧ a.world.1.queue = [] := by
+  induction feed generalizing k e d c with
+  | nil =>
+    have hne : (k == K) = false := by simp; omega
+    cases d
+    · simp [runAudited, dropEnv, hne, dsend_world_dead _ _ _ hrx, Chan.dropTx, hq]
+    · simp [runAudited, dropEnv, hne, dsend_off, hq]
+  | cons ev rest ih =>
+    have hne : (k == K) = false := by simp; omega
+    simp only [runAudited, dropEnv, hne]
+    split
+    · cases d
+      · simp [dsend_world_dead _ _ _ hrx, Chan.dropTx, hq]
+      · simp [dsend_off, hq]
+    · cases d with
+      | disabled => simpa [dsend_off] using ih (k + 1) (by omega) _ .disabled c hrx hq
+      | active =>
+        simpa [dsend_world_dead _ _ _ hrx] using
+          ih (k + 1) (by omega) _ .disabled c.dropTx (by simp [Chan.dropTx, hrx]) (by simp [Chan.dropTx, hq])
+
+/-- The run loop against the drain-then-drop consumer, generalised over the loop position. -/
+theorem runAudited_dropEnv {ε ι κ : Type} (E : Runner ε ι κ) (K k : Nat) (hk : k ≤ K) (e : ε)
+    (c : Chan κ) (g : List κ) (feed : List ι) (hrx : c.rxAlive = true) :
+    let a := runAudited E worldTx (dropEnv K) k e .active (c, g) feed
+    a.world.2 ++ a.world.1.queue = g ++ c.queue ++ (runTicks E e feed).take (K - k) ∧
+    a.tx = (if K - k < (runTicks E e feed).length then .disabled else .active) := by
+  have hdead : (c.dropRx).rxAlive = false := rfl
+  induction feed generalizing k e c g with
+  | nil =>
+    by_cases hkK : k = K
+    · subst hkK
+      simp [runAudited, dropEnv, dsend_world_dead, Chan.dropRx, Chan.dropTx, runTicks]
+    · have hne : (k == K) = false := by simp; omega
+      have h2 : ¬ (K - k < 1) := by omega
+      have h3 : 1 ≤ K - k := by omega
+      simp [runAudited, dropEnv, hne, dsend_world_alive _ _ _ hrx, runTicks, h2, List.take_of_length_le, h3]
+  | cons ev rest ih =>
+    by_cases hkK : k = K
+    · subst hkK
+      simp only [runAudited, dropEnv, beq_self_eq_true, ↓reduceIte, Nat.sub_self, List.take_zero,
+        List.append_nil, runTicks]
+      have hpos := runTicks_length_pos E (E.proc e ev).1 rest
+      have hd : (c.dropRx).rxAlive = false := rfl
+      split
+      · simp [dsend_world_dead, Chan.dropRx, Chan.dropTx]
+      · have := runAudited_after_drop E k (k + 1) (by omega) (E.proc e ev).1 .disabled
+          (c.dropRx.dropTx) (g ++ c.queue) rest (by simp [Chan.dropRx, Chan.dropTx])
+          (by simp [Chan.dropRx, Chan.dropTx])
+        simp only [dsend_world_dead _ _ _ hd]
+        simp [this.1, this.2.1, this.2.2]
+    · have hne : (k == K) = false := by simp; omega
+      have hsub : K - k = (K - (k + 1)) + 1 := by omega
+      simp only [runAudited, dropEnv, hne, runTicks]
+      split
+      · have h2 : ¬ (K - k < 1) := by omega
+        have h3 : 1 ≤ K - k := by omega
+        simp [dsend_world_alive _ _ _ hrx, h2, List.take_of_length_le, h3]
+      · have := ih (k + 1) (by omega) (E.proc e ev).1 { c with queue := c.queue ++ [(E.proc e ev).2] } g
+          (by simpa using hrx) rfl
+        simp only [Bool.false_eq_true, ↓reduceIte, dsend_world_alive _ _ _ hrx]
+        rw [hsub, List.take_succ_cons, List.length_cons]
+        simp only [Nat.add_lt_add_iff_right]
+        refine ⟨?_, this.2⟩
+        rw [this.1]; simp
+
 end BarterModel.Chan
